@@ -407,7 +407,14 @@ impl<'a> Scanner<'a> {
           self.new_line();
         },
         '/' => {
-          let mut chars = self.source[self.current_offset()..].chars();
+          // look behind the character peeked at. Its offset is not current_offset() while
+          // nothing has been consumed yet
+          let offset = self
+            .char_indices
+            .peek()
+            .map(|(index, _)| *index)
+            .unwrap_or(self.source.len());
+          let mut chars = self.source[offset..].chars();
           chars.next();
 
           match chars.next() {
